@@ -1107,7 +1107,7 @@ class Program:
         for c in self.callers().get(fid, ()):
             root = (self.raw_fns[c].root or c) if c in self.raw_fns else c
             if allowed is not None and (c in allowed or root in allowed):
-                out.add(c)
+                out.add(c if c in allowed else root)      # a closure of an allowed caller is that caller
             elif self.inline_mode and c not in _seen and self.transparent(root) and len(_seen) < 6:
                 out |= self.effective_callers(root, allowed, _seen | {c, root})
             else:
